@@ -8,6 +8,7 @@ import GabiModel.Ops.KeysOps
 import GabiModel.Ops.Crypto
 import GabiModel.Ops.RevOps
 import GabiModel.Ops.Serial
+import GabiModel.Ops.KeyGenOps
 namespace Gabi.Ops
 open Lean Gabi Gabi.Wire
 
@@ -16,7 +17,8 @@ def handlers : List Handler := [
   KeysOps.handle,
   Crypto.handle,
   RevOps.handle,
-  Serial.handle
+  Serial.handle,
+  KeyGenOps.handle
 ]
 
 def run (st : State) (op : String) (j : Json) : R (State × String) :=
